@@ -147,8 +147,18 @@ type scen struct {
 	nextID     int
 	nextKey    int
 	ops        int
+	force      *forced // set by reuseAfterExpiry for the next publish
 	// signature flags
 	fIdem, fVer, fFresh, fBig, fKeeps, fEither, fBefore bool
+}
+
+// forced pins the next publish to one channel / idempotency key / result TTL; window allows it to run
+// inside the open +-1 s window around the key's result-TTL deadline (the outcome is then followed, not judged).
+type forced struct {
+	cm     *chModel
+	key    string
+	ttl    time.Duration
+	window bool
 }
 
 func (s *scen) logf(format string, a ...any) {
@@ -266,6 +276,11 @@ func (s *scen) collides(cm *chModel, key string, now time.Time) bool {
 func (s *scen) publish() {
 	r := s.c.R
 	cm := kit.Pick(r, s.chans)
+	force := s.force
+	s.force = nil
+	if force != nil {
+		cm = force.cm
+	}
 	mapKey, scope := "", ""
 	if s.isMap {
 		mapKey = kit.Pick(r, []string{"a", "b", "c"})
@@ -273,7 +288,17 @@ func (s *scen) publish() {
 	}
 	o := pubOpts{hist: s.isMap || !r.Chance(1, 7)}
 	// idempotency key
-	if r.Chance(11, 20) {
+	if force != nil {
+		o.hist = true
+		o.idemKey, o.resultTTL = force.key, force.ttl
+		known := false
+		for _, k := range cm.keys {
+			known = known || k == o.idemKey
+		}
+		if !known {
+			cm.keys = append(cm.keys, o.idemKey)
+		}
+	} else if r.Chance(11, 20) {
 		var reuse []string
 		for _, k := range cm.keys {
 			if !cm.dead[k] {
@@ -306,16 +331,21 @@ func (s *scen) publish() {
 		}
 	}
 	now := time.Now()
+	windowProbe := false
 	if e, ok := cm.cache[o.idemKey]; ok && o.idemKey != "" {
 		// second-resolution TTL: nothing is asserted inside the open +-1 s window around the deadline
 		if now.After(e.expires.Add(-sec)) && now.Before(e.expires.Add(sec)) {
-			s.sleep(e.expires.Add(sec).Sub(now))
-			now = time.Now()
+			if force != nil && force.window {
+				windowProbe = true
+			} else {
+				s.sleep(e.expires.Add(sec).Sub(now))
+				now = time.Now()
+			}
 		}
 	}
 	// version
 	h, has := cm.held[scope]
-	if o.hist && r.Chance(11, 20) {
+	if force == nil && o.hist && r.Chance(11, 20) {
 		o.version = s.pickVersion(h, has)
 		o.vEpoch = s.pickEpoch()
 	}
@@ -352,7 +382,7 @@ func (s *scen) publish() {
 	freshNow := false
 	var idemPos centrifuge.StreamPosition
 	if o.idemKey != "" {
-		if e, ok := cm.cache[o.idemKey]; ok {
+		if e, ok := cm.cache[o.idemKey]; ok && !windowProbe {
 			if !now.After(e.expires.Add(-sec)) {
 				expect, idemPos = "idem", e.pos
 				if !now.Before(e.expires.Add(-2 * sec)) {
@@ -387,6 +417,17 @@ func (s *scen) publish() {
 	if res.err != nil {
 		s.fail("publish-error", fmt.Sprintf("Publish returned %v", res.err))
 		return
+	}
+	if windowProbe {
+		// inside the window either answer is right; the model follows the broker
+		if res.suppressed && res.reason == centrifuge.SuppressReasonIdempotency {
+			expect, idemPos = "idem", cm.cache[o.idemKey].pos
+			s.c.Count("window_probe_answered_from_cache", 1)
+		} else {
+			delete(cm.cache, o.idemKey)
+			freshNow = true
+			s.c.Count("window_probe_published_as_fresh", 1)
+		}
 	}
 	if expect == "either" {
 		s.fEither = true
@@ -527,6 +568,38 @@ func (s *scen) publish() {
 	s.readAndCompare(cm, what)
 }
 
+// reuseAfterExpiry: publish with a key and a short result TTL, reuse the key right at its deadline (inside
+// the window where either answer is allowed: the model follows), let the broker's once-a-second cache
+// sweep pass, and use the key once more: that last publish is judged against whatever the reuse
+// established (a fresh result with a long TTL must still suppress it).
+func (s *scen) reuseAfterExpiry() {
+	r := s.c.R
+	cm := kit.Pick(r, s.chans)
+	key := fmt.Sprintf("r%d", s.nextKey)
+	s.nextKey++
+	ttl := time.Duration(r.Range(1, 3)) * sec
+	s.force = &forced{cm: cm, key: key, ttl: ttl}
+	s.publish()
+	e, ok := cm.cache[key]
+	if !ok || s.c.Violated() {
+		return
+	}
+	d := time.Until(e.expires) + time.Duration(r.Intn(1000))*time.Millisecond
+	s.logf("jump %s (into the result-TTL window of %q)", d, key)
+	s.sleep(d)
+	s.force = &forced{cm: cm, key: key, ttl: time.Duration(kit.Pick(r, []int{5, 10, 0})) * sec, window: true}
+	s.publish()
+	if s.c.Violated() {
+		return
+	}
+	d = time.Duration(r.Range(1050, 2600)) * time.Millisecond
+	s.logf("sleep %s (past the result cache sweep)", d)
+	s.sleep(d)
+	s.force = &forced{cm: cm, key: key, ttl: time.Duration(kit.Pick(r, []int{5, 10})) * sec}
+	s.publish()
+	s.c.Count("key_reused_at_deadline_then_again_after_sweep", 1)
+}
+
 func (s *scen) jump() {
 	r := s.c.R
 	now := time.Now()
@@ -592,9 +665,12 @@ func runScenario(c *kit.Case, t target, isMap bool, prefix string, all *[]*chMod
 	}
 	n := r.Range(12, 40)
 	for i := 0; i < n && !c.Violated(); i++ {
-		if r.Chance(1, 5) {
+		switch {
+		case r.Chance(1, 5):
 			s.jump()
-		} else {
+		case r.Chance(1, 12):
+			s.reuseAfterExpiry()
+		default:
 			s.publish()
 		}
 	}
@@ -632,7 +708,7 @@ func TestC19(t *testing.T) {
 		Rule: "every case is one testing/synctest bubble with a fresh Node (not run), a standalone MemoryBroker and a standalone MemoryMapBroker (persistent and recoverable map channels), each with a recording BrokerEventHandler, and 8 scenarios on distinct channels (half stream broker, half map broker). " +
 			"A scenario is 12-40 steps on 1-2 channels (map: 3 keys): Publish with a random mix of idempotency key (none / new / reused, result TTL 1-10 s or the 300 s default), version (none / held-1 / held / held+1 / small / 2^53, 2^53+1, 2^63-1, 2^63, 2^63+1, 2^64-2, 2^64-1) and version epoch (only empty / only named / mixed per scenario), with or without history (stream broker), " +
 			"and virtual-clock jumps to 1-2.5 s before / after a result-TTL deadline or random 1-3000 ms sleeps. After every publish: Suppressed flag, SuppressReason, returned position (a repeated key must return the ORIGINAL position), number of HandlePublication calls (0 for suppressed, exactly 1 otherwise), and the complete History / ReadStream+ReadState read back are compared with the reference model. " +
-			"Nothing is asserted inside the open +-1 s window around a result-TTL deadline (the harness sleeps past it). Cases < 320 also generate 'stale version after an unversioned stored publish' on the stream broker; cases 320..419 use channel names and idempotency keys with '_' such that channel+'_'+key coincide across channels. " +
+			"Nothing is asserted inside the open +-1 s window around a result-TTL deadline (the harness sleeps past it), except in reuse-at-deadline sequences (1 step in 12): key with a 1-3 s TTL, reused 0-1 s after its deadline (either answer allowed, the model follows the broker), 1.05-2.6 s pause across the broker's cache sweep, then used again and judged against what the reuse established. Cases < 320 also generate 'stale version after an unversioned stored publish' on the stream broker; cases 320..419 use channel names and idempotency keys with '_' such that channel+'_'+key coincide across channels. " +
 			"Non-trivial = every completed scenario; signature = broker half x which of {idempotent suppression, version suppression, fresh publish after TTL, repeat within 2 s before TTL, version >= 2^53, unversioned publish kept protection, empty-vs-named epoch} occurred x epoch mode.",
 		Assumptions: []string{
 			"only the in-memory brokers are checked: no Redis server exists in this environment, so the Redis halves of the statement (broker_redis.go, the Lua scripts, RedisMapBroker) are NOT covered by this check",
@@ -643,7 +719,7 @@ func TestC19(t *testing.T) {
 			"testing/synctest virtual time drives the result-TTL expiry; both brokers' sweep goroutines end on Close",
 		},
 		Cases: map[string]int{"quick": 1600, "thorough": 24000},
-		RequireCounters: []string{"suppressed_idempotent", "suppressed_version", "stream_suppressed_idempotent", "map_suppressed_idempotent", "stream_suppressed_version", "map_suppressed_version",
+		RequireCounters: []string{"key_reused_at_deadline_then_again_after_sweep", "window_probe_published_as_fresh", "suppressed_idempotent", "suppressed_version", "stream_suppressed_idempotent", "map_suppressed_idempotent", "stream_suppressed_version", "map_suppressed_version",
 			"fresh_after_result_ttl", "ttl_expiry_crossed", "repeat_within_2s_before_result_ttl", "default_result_ttl_jump", "unversioned_publish_kept_protection", "version_beyond_2p53_suppressed", "version_beyond_2p53_accepted_over_older"},
 		Run: func(c *kit.Case) {
 			r := c.R
